@@ -19,7 +19,7 @@ class C13(Prop):
         "(descriptors, numeric OIDs, options) and hostile values (NUL, parentheses, asterisks, backslashes, ':' '=' "
         "'~', control and non-UTF-8 octets, specials at substring component boundaries, values ending in a backslash); "
         "str(filter) and LDAPFilter.from_string are compared with the extracted model, and the text is also parsed by "
-        "an independent RFC 4515 reference parser; non-trivial = a value contains an octet that needs escaping or "
+        "an independent RFC 4515 reference parser; every from_string is made twice with the first result modified in place in between (a parser is a function of its text); non-trivial = a value contains an octet that needs escaping or "
         "depth > 1"
     )
     assumptions = [
